@@ -488,6 +488,12 @@ class Run:
             finally:
                 drv.on_slot = None
             proc = self.proc  # (a reincarnation replaces the instance)
+            # before the harness looks at the outcome itself: has anybody?  (asyncio reports the exception of a future nobody asked
+            # for to the handler of the loop when the future is collected)
+            try:
+                self.future_unretrieved = bool(getattr(proc.future(), '_log_traceback', False))
+            except BaseException:  # noqa: BLE001
+                self.future_unretrieved = None
             self.final = views(proc)
             self.final_phase = phase_of(proc)
             self.task_info = self._task_info(self.task)
@@ -632,7 +638,7 @@ class Run:
             'case': self.case, 'events': self.rec.events, 'acts': self.acts, 'qpoints': self.qpoints,
             'final': getattr(self, 'final', None), 'task': getattr(self, 'task_info', None),
             'extra_tasks': getattr(self, 'extra_task_info', None), 'futs': getattr(self, 'fut_info', None),
-            'loop_errors': getattr(self, 'loop_errors', None), 'stuck': getattr(self, 'stuck', None),
+            'future_unretrieved': getattr(self, 'future_unretrieved', None), 'loop_errors': getattr(self, 'loop_errors', None), 'stuck': getattr(self, 'stuck', None),
             'inconclusive': self.inconclusive, 'trace': getattr(self, 'trace', None), 'slots': getattr(self, 'slots', None),
             'undelivered': self.undelivered, 'final_phase': getattr(self, 'final_phase', None),
             'plan_done_q': getattr(self, 'plan_done_q', None), 'drain_done_q': getattr(self, 'drain_done_q', None),
